@@ -7,7 +7,7 @@ from .. import core, gen, impl_thr, scen
 from . import c01, c04
 
 ID = "C05"
-BUDGET = {"quick": 400, "thorough": 40000}
+BUDGET = {"quick": 1600, "thorough": 200000}
 RULE = ("scenario = scheduler with max_exec in {1,2,3,5} (and 0), 2-9 cyclic/one-shot jobs on a 2^-6 s grid (so that the float "
         "priorities are exact), weights incl. 0, fractional and equal ones, latenesses incl. ties; built-in linear / constant "
         "functions (batch must equal the Lean model's, including order) and table-driven user functions returning negative, "
